@@ -127,9 +127,6 @@ func CreateEmptyTrak(trackID, timeScale uint32, mediaType, language string) *Tra
 	trak := &TrakBox{}
 	tkhd := CreateTkhd()
 	tkhd.TrackID = trackID
-	if mediaType == "audio" {
-		tkhd.Volume = 0x0100 // Fixed 16 value 1.0
-	}
 	trak.AddChild(tkhd)
 
 	mdia := &MdiaBox{}
@@ -141,6 +138,9 @@ func CreateEmptyTrak(trackID, timeScale uint32, mediaType, language string) *Tra
 	if err != nil {
 		panic(fmt.Sprintf("mediaType %s not supported", mediaType))
 	}
+	if hdlr.HandlerType == "soun" {
+		tkhd.Volume = 0x0100 // Fixed 16 value 1.0
+	}
 	mdia.AddChild(hdlr)
 	if isThreeLetterLanguage(language) {
 		mdhd.SetLanguage(language)
@@ -151,16 +151,16 @@ func CreateEmptyTrak(trackID, timeScale uint32, mediaType, language string) *Tra
 	}
 	minf := NewMinfBox()
 	mdia.AddChild(minf)
-	switch mediaType {
-	case "video":
+	// The media header box follows the handler type (ISO/IEC 14496-12 Section 8.4.5 and 12),
+	// so that e.g. mediaType "stpp", "subtitles" and "clcp" (all handler subt) get sthd.
+	switch hdlr.HandlerType {
+	case "vide":
 		minf.AddChild(CreateVmhd())
-	case "audio":
+	case "soun":
 		minf.AddChild(CreateSmhd())
-	case "subtitle", "subtitles", "stpp":
+	case "subt":
 		minf.AddChild(&SthdBox{})
-	case "text", "wvtt":
-		minf.AddChild(&NmhdBox{})
-	default:
+	default: // text, meta and other handlers
 		minf.AddChild(&NmhdBox{})
 	}
 	dinf := &DinfBox{}
